@@ -32,7 +32,7 @@ Inductive task :=
 | TCommitSec (ks : list key).        (* commit of secondaries / async commit of all keys *)
 
 (* tempLockBufferEntry *)
-Record entry := mkE { e_rv : bool; e_ce : bool; e_lwc : ts }.
+Record entry := mkE { e_rv : bool; e_ce : bool; e_lwc : ts; e_ex : bool }.   (* e_ex: Value.Exists *)
 
 (* ttlManager (keep-alive of the primary lock): state and the key its goroutine was started with *)
 Inductive kast := KUninit | KRunning (k : key) | KClosed.
@@ -51,7 +51,7 @@ Record st := mkS {
   store : list slock;      (* locks of S held by the store *)
   flags : list key;        (* buffer keys flagged 'locked' *)
   written : list (key * bool);  (* buffer writes, newest first: (key, value is empty = Delete) *)
-  presume : list key;      (* buffer keys flagged PresumeKeyNotExists *)
+  presume : list key;      (* buffer keys flagged PresumeKeyNotExists / NeedCheckExists *)
   cnt : Z;                 (* lockedCnt *)
   agg : option actx;
   committer : bool;        (* txn.committer != nil *)
@@ -61,27 +61,29 @@ Record st := mkS {
   tasks : list task;
   valid : bool;
   pess : bool;
-  ka : kast }.               (* committer.ttlManager *)
+  ka : kast;               (* committer.ttlManager *)
+  fnx : list key }.        (* flagged keys whose flag says LockedValueNotExists (default: value exists) *)
 
-Definition init (p : bool) : st := mkS [] [] [] [] 0%Z None false None 0 0 [] true p KUninit.
+Definition init (p : bool) : st := mkS [] [] [] [] 0%Z None false None 0 0 [] true p KUninit [].
 
 (* ---- setters ---- *)
-Definition set_store x s := mkS x (flags s) (written s) (presume s) (cnt s) (agg s) (committer s) (primary s) (fu s) (cmaxc s) (tasks s) (valid s) (pess s) (ka s).
-Definition set_flags x s := mkS (store s) x (written s) (presume s) (cnt s) (agg s) (committer s) (primary s) (fu s) (cmaxc s) (tasks s) (valid s) (pess s) (ka s).
-Definition set_written x s := mkS (store s) (flags s) x (presume s) (cnt s) (agg s) (committer s) (primary s) (fu s) (cmaxc s) (tasks s) (valid s) (pess s) (ka s).
-Definition set_presume x s := mkS (store s) (flags s) (written s) x (cnt s) (agg s) (committer s) (primary s) (fu s) (cmaxc s) (tasks s) (valid s) (pess s) (ka s).
-Definition set_cnt x s := mkS (store s) (flags s) (written s) (presume s) x (agg s) (committer s) (primary s) (fu s) (cmaxc s) (tasks s) (valid s) (pess s) (ka s).
-Definition set_agg x s := mkS (store s) (flags s) (written s) (presume s) (cnt s) x (committer s) (primary s) (fu s) (cmaxc s) (tasks s) (valid s) (pess s) (ka s).
-Definition set_committer x s := mkS (store s) (flags s) (written s) (presume s) (cnt s) (agg s) x (primary s) (fu s) (cmaxc s) (tasks s) (valid s) (pess s) (ka s).
-Definition set_primary x s := mkS (store s) (flags s) (written s) (presume s) (cnt s) (agg s) (committer s) x (fu s) (cmaxc s) (tasks s) (valid s) (pess s) (ka s).
-Definition set_fu x s := mkS (store s) (flags s) (written s) (presume s) (cnt s) (agg s) (committer s) (primary s) x (cmaxc s) (tasks s) (valid s) (pess s) (ka s).
-Definition set_cmaxc x s := mkS (store s) (flags s) (written s) (presume s) (cnt s) (agg s) (committer s) (primary s) (fu s) x (tasks s) (valid s) (pess s) (ka s).
-Definition set_tasks x s := mkS (store s) (flags s) (written s) (presume s) (cnt s) (agg s) (committer s) (primary s) (fu s) (cmaxc s) x (valid s) (pess s) (ka s).
-Definition set_valid x s := mkS (store s) (flags s) (written s) (presume s) (cnt s) (agg s) (committer s) (primary s) (fu s) (cmaxc s) (tasks s) x (pess s) (ka s).
-Definition set_ka x s := mkS (store s) (flags s) (written s) (presume s) (cnt s) (agg s) (committer s) (primary s) (fu s) (cmaxc s) (tasks s) (valid s) (pess s) x.
+Definition set_store x s := mkS x (flags s) (written s) (presume s) (cnt s) (agg s) (committer s) (primary s) (fu s) (cmaxc s) (tasks s) (valid s) (pess s) (ka s) (fnx s).
+Definition set_flags x s := mkS (store s) x (written s) (presume s) (cnt s) (agg s) (committer s) (primary s) (fu s) (cmaxc s) (tasks s) (valid s) (pess s) (ka s) (fnx s).
+Definition set_written x s := mkS (store s) (flags s) x (presume s) (cnt s) (agg s) (committer s) (primary s) (fu s) (cmaxc s) (tasks s) (valid s) (pess s) (ka s) (fnx s).
+Definition set_presume x s := mkS (store s) (flags s) (written s) x (cnt s) (agg s) (committer s) (primary s) (fu s) (cmaxc s) (tasks s) (valid s) (pess s) (ka s) (fnx s).
+Definition set_cnt x s := mkS (store s) (flags s) (written s) (presume s) x (agg s) (committer s) (primary s) (fu s) (cmaxc s) (tasks s) (valid s) (pess s) (ka s) (fnx s).
+Definition set_agg x s := mkS (store s) (flags s) (written s) (presume s) (cnt s) x (committer s) (primary s) (fu s) (cmaxc s) (tasks s) (valid s) (pess s) (ka s) (fnx s).
+Definition set_committer x s := mkS (store s) (flags s) (written s) (presume s) (cnt s) (agg s) x (primary s) (fu s) (cmaxc s) (tasks s) (valid s) (pess s) (ka s) (fnx s).
+Definition set_primary x s := mkS (store s) (flags s) (written s) (presume s) (cnt s) (agg s) (committer s) x (fu s) (cmaxc s) (tasks s) (valid s) (pess s) (ka s) (fnx s).
+Definition set_fu x s := mkS (store s) (flags s) (written s) (presume s) (cnt s) (agg s) (committer s) (primary s) x (cmaxc s) (tasks s) (valid s) (pess s) (ka s) (fnx s).
+Definition set_cmaxc x s := mkS (store s) (flags s) (written s) (presume s) (cnt s) (agg s) (committer s) (primary s) (fu s) x (tasks s) (valid s) (pess s) (ka s) (fnx s).
+Definition set_tasks x s := mkS (store s) (flags s) (written s) (presume s) (cnt s) (agg s) (committer s) (primary s) (fu s) (cmaxc s) x (valid s) (pess s) (ka s) (fnx s).
+Definition set_valid x s := mkS (store s) (flags s) (written s) (presume s) (cnt s) (agg s) (committer s) (primary s) (fu s) (cmaxc s) (tasks s) x (pess s) (ka s) (fnx s).
+Definition set_ka x s := mkS (store s) (flags s) (written s) (presume s) (cnt s) (agg s) (committer s) (primary s) (fu s) (cmaxc s) (tasks s) (valid s) (pess s) x (fnx s).
 Definition kreset (k : kast) : kast := match k with KRunning _ => KUninit | x => x end.
 Definition kclose (k : kast) : kast := match k with KRunning _ => KClosed | x => x end.
 Definition krun (p : option key) (k : kast) : kast := match k, p with KUninit, Some q => KRunning q | x, _ => x end.
+Definition set_fnx x s := mkS (store s) (flags s) (written s) (presume s) (cnt s) (agg s) (committer s) (primary s) (fu s) (cmaxc s) (tasks s) (valid s) (pess s) (ka s) x.
 (* ttlManager.reset / close / run *)
 Definition ka_reset (s : st) : st := match ka s with KRunning _ => set_ka KUninit s | _ => s end.
 Definition ka_close (s : st) : st := match ka s with KRunning _ => set_ka KClosed s | _ => s end.
@@ -196,14 +198,18 @@ Definition agg_done (s : st) : st :=
     (* no key became the primary in the last attempt: stop the keep-alive started for an earlier one *)
     let s0 := if alastprim a && negb (aprim a) then ka_reset s else s in
     let s1 := cleanup_redundant a s0 in
-    set_agg None (set_cmaxc (N.max (cmaxc s1) (amaxc a)) (set_flags (flags s1 ++ keys_of (cur a)) s1))
+    (* UpdateFlags(key, SetKeyLocked, DelNeedCheckExists, LockedValue(Not)Exists) for every current key *)
+    let nx := keys_of (filter (fun p => (e_ce (snd p) || e_rv (snd p)) && negb (e_ex (snd p))) (cur a)) in
+    set_fnx (minus (fnx s1) (keys_of (cur a)) ++ nx)
+      (set_presume (minus (presume s1) (keys_of (cur a)))
+        (set_agg None (set_cmaxc (N.max (cmaxc s1) (amaxc a)) (set_flags (flags s1 ++ keys_of (cur a)) s1))))
   end.
 
 (* trySkipLockingOnRetry *)
 Definition try_skip (e : entry) (rv ce : bool) : option entry :=
   let ok := if negb (e_lwc e =? 0) then true
             else negb ((negb (e_rv e) && rv) || (negb rv && negb (e_ce e) && ce)) in
-  if ok then Some (mkE (e_rv e && rv) (e_ce e && ce) 0) else None.
+  if ok then Some (mkE (e_rv e && rv) (e_ce e && ce) 0 (if ce then e_ex e else true)) else None.
 
 (* filterAggressiveLockedKeys: (context, keys that still need a request, error) *)
 Fixpoint filter_agg (a : actx) (rv ce : bool) (f : ts) (expired canskip : bool) (ks : list key)
@@ -243,7 +249,6 @@ Definition select_primary (keys : list key) (s : st) : st :=
 
 (* ---- LockKeys ---- *)
 Record lock_out := mkLO {
-  lo_early : bool;           (* key-exists found in the buffer flags before any request *)
   lo_expired : bool;         (* mayAggressiveLockingLastLockedKeysExpire *)
   lo_locked : list key;      (* keys the store locked (or re-locked) during the call *)
   lo_absent : list key;      (* keys reported as not existing *)
@@ -258,6 +263,22 @@ Definition in_prev (s : st) (k : key) : bool :=
 Definition need_lock (s : st) (k : key) : bool :=
   negb (in_cur s k) && (in_prev s k || negb (memk k (flags s))).
 
+(* the pre-loop of lockKeys: a key that is already locked, still flagged NeedCheckExists and known to exist makes the
+   call return ErrKeyExist before anything else happens *)
+Definition entry_of (s : st) (k : key) : option entry :=
+  match agg s with
+  | Some a => match findk k (cur a) with Some e => Some e | None => findk k (prev a) end
+  | None => None
+  end.
+Definition early_exists (s : st) (ks : list key) : bool :=
+  pess s &&
+  existsb (fun k =>
+    memk k (presume s) &&
+    match entry_of s k with
+    | Some e => e_ex e
+    | None => memk k (flags s) && negb (memk k (fnx s))
+    end) ks.
+
 (* exitAggressiveLockingIfInapplicable *)
 Definition exit_agg (ks : list key) (s : st) : st :=
   match agg s with
@@ -268,13 +289,20 @@ Definition exit_agg (ks : list key) (s : st) : st :=
 (* the final loop of lockKeys: flag the keys / record them in currentLockedKeys *)
 Definition kept (loie : bool) (absent rk : list key) : list key :=
   if loie then minus rk absent else rk.
-Definition finish_lock (rk : list key) (rv ce loie : bool) (absent : list key) (lwc : ts) (s : st) : st :=
+(* Value.Exists recorded for a key by the final loop: only a request answered with values (return-values,
+   check-existence or a conflict reply) says anything; without it the entry's zero value reads "not exists" *)
+Definition ex_of (hasvals rv ce : bool) (lwc : ts) (absent : list key) (k : key) : bool :=
+  hasvals && (rv || ce || negb (lwc =? 0)) && negb (memk k absent).
+Definition finish_lock (rk : list key) (rv ce loie : bool) (absent : list key) (lwc : ts) (hasvals : bool) (s : st) : st :=
   let kp := kept loie absent rk in
   let s1 := match agg s with
             | Some a =>
               set_agg (Some (a_prev (fold_left (fun c k => delk k c) kp (prev a))
-                                    (a_cur (fold_left (fun c k => (k, mkE rv ce lwc) :: delk k c) kp (cur a)) a))) s
-            | None => set_flags (flags s ++ kp) s
+                                    (a_cur (fold_left (fun c k => (k, mkE rv ce lwc (ex_of hasvals rv ce lwc absent k)) :: delk k c) kp (cur a)) a))) s
+            | None =>
+              (* UpdateFlags(key, SetKeyLocked, DelNeedCheckExists, LockedValue(Not)Exists) *)
+              let nx := filter (fun k => hasvals && (rv || ce) && memk k absent) kp in
+              set_fnx (minus (fnx s) kp ++ nx) (set_presume (minus (presume s) kp) (set_flags (flags s ++ kp) s))
             end in
   set_cnt (cnt s1 + len kp)%Z s1.
 
@@ -320,7 +348,7 @@ Definition lock_rpc_core (all rk : list key) (assigned rv ce loie : bool) (f : t
                 | None => s2
                 end
               else s2 in
-    finish_lock rk rv ce loie (lo_absent o) lwc s3
+    finish_lock rk rv ce loie (lo_absent o) lwc true s3
   end.
 
 (* the keep-alive across the request: ttlManager.run when the batch holding the primary was answered
@@ -368,7 +396,7 @@ Definition lock_pess (keys : list key) (rv ce loie : bool) (f : ts) (o : lock_ou
 Definition lock_keys_full (ks : list key) (rv ce loie : bool) (f : ts) (o : lock_out) (s : st) : st * list key :=
   let s1 := exit_agg ks s in
   if negb (pess s1) && (match agg s1 with Some _ => true | None => false end) then (s1, [])
-  else if lo_early o then (s1, [])
+  else if early_exists s1 ks then (s1, [])
   else
     let keys0 := filter (need_lock s1) ks in
     match keys0 with
@@ -380,7 +408,7 @@ Definition lock_keys_full (ks : list key) (rv ce loie : bool) (f : ts) (o : lock
       else
         let keys := dedup_sort keys0 in
         if pess s1 && (0 <? f) then lock_pess keys rv ce loie f o s1
-        else (finish_lock keys rv ce loie [] 0 s1, [])
+        else (finish_lock keys rv ce loie [] 0 false s1, [])
     end.
 Definition lock_keys ks rv ce loie f o s : st := fst (lock_keys_full ks rv ce loie f o s).
 
@@ -490,6 +518,8 @@ Inductive ev :=
 | ESet (k : key)                      (* Set (non-empty value) *)
 | EDel (k : key)                      (* Delete (empty value) *)
 | EInsert (k : key)                   (* SetWithFlags(.., SetPresumeKeyNotExists) *)
+| EMark (k : key)                     (* the flags of an insert whose value was discarded again (staging clean-up) *)
+| EUnmark (k : key)                   (* the staged insert is reverted (the call failed) *)
 | ELock (ks : list key) (rv ce loie : bool) (f : ts) (o : lock_out)
 | EAggStart | EAggRetry | EAggCancel | EAggDone
 | ECommit (o : commit_out)
@@ -523,6 +553,10 @@ Definition step (s : st) (e : ev) : st :=
   | ESet k => set_written ((k, false) :: written s) s
   | EDel k => set_written ((k, true) :: written s) s
   | EInsert k => set_presume (k :: presume s) (set_written ((k, false) :: written s) s)
+  | EMark k => set_presume (k :: presume s) s
+  | EUnmark k =>
+    (* reverting the staged insert: the non-persistent key flags survive only if the key still holds an older buffered value *)
+    match findk k (written s) with Some _ => s | None => set_presume (minus (presume s) [k]) s end
   | ELock ks rv ce loie f o => lock_keys ks rv ce loie f o s
   | EAggStart => agg_start s
   | EAggRetry => agg_retry s
